@@ -2366,10 +2366,6 @@ class Recipe:
         if ratio <= 0:
             raise ValueError("Concentration is impossible to create.")
 
-        if solute.is_enzyme():
-            # TODO: Support this.
-            raise ValueError("Not currently supported.")
-
         if new_name:
             self.new_names[destination.name] = new_name
         self.steps.append(RecipeStep(self, 'dilute', None, destination, solute, concentration, solvent, new_name))
